@@ -979,32 +979,54 @@ def solver_streams(ctx, operators, solvers, rng):
                         nres_bad += 1
                     ctx.violation(key, 'make_solver(%s matrix%s) on a well-conditioned symmetric %s matrix (cond_inf %.3g) raised %s: %s' % (
                         fmt, ', symmetric=True' if kw else '', 'positive definite' if definite else 'indefinite', cond, type(ex).__name__, str(ex)[:100]), replay, True)
-    # many right-hand sides at once (more than 4096 columns, not a multiple of 4096): every column must be solved
-    for _ in range(3 if quick else 20):
-        d = int(rng.integers(2, 6))
+    # wide right-hand sides: column counts around and beyond 4096; EVERY column must be solved (B @ Y == X within the bound for all
+    # columns; np.empty garbage is not reliably non-finite), a few sampled columns are compared with the exact rational solve
+    WIDTHS = list(range(1, 11)) + [4095, 4096, 4097, 5000, 8192, 8193]
+    for _ in range(10 if quick else 80):
+        d = int(rng.integers(2, 7))
+        sym = bool(rng.integers(0, 2))
         while True:
-            B = rint(rng, (d, d)) + 4 * np.eye(d) if rng.integers(0, 2) else spd_int(rng, d)
-            nn = exact_inv_norms(B)
-            if nn is not None:
-                break
-        ncol = int(rng.integers(4097, 9001))
+            if sym:
+                B = spd_int(rng, d) if rng.integers(0, 2) else (lambda G: G + G.T + np.diag(rint(rng, (d,))))(rint(rng, (d, d)))
+            else:
+                B = rint(rng, (d, d)) + 4 * np.eye(d)
+            inv = exact_inverse(B)
+            if inv is not None:
+                nB = float(np.abs(B).sum(1).max()); nI = float(max(sum(abs(v) for v in row) for row in inv))
+                if nB * nI <= 1e4:
+                    break
+        ncol = int(rng.choice(WIDTHS + [int(rng.integers(8800, 9200))] * 3 + [4097, 5000, 8193]))
         X = rint(rng, (d, ncol))
         k = str(rng.choice(['r', 'c', 'd']))
-        kw = {'spd': True} if (np.array_equal(B, B.T) and np.all(np.linalg.eigvalsh(B) > 0) and rng.integers(0, 2)) else {}
-        ctx.case(('manyrhs', k, B.tobytes(), ncol)); ctx.count('stream=make_solver many right-hand sides'); ctx.count('many-rhs kind=' + k)
-        replay = {'B': B.tolist(), 'kind': k, 'kwargs': kw, 'columns': ncol, 'rhs': 'rng integers in [-3,3], shape (%d,%d)' % (d, ncol)}
+        is_sym = bool(np.array_equal(B, B.T)); is_spd = is_sym and bool(np.all(np.linalg.eigvalsh(B) > 0))
+        flags = [{}] + ([{'symmetric': True}] if is_sym else []) + ([{'spd': True}] if is_spd else [])
+        kw = flags[int(rng.integers(0, len(flags)))]
+        ctx.case(('manyrhs', k, tuple(kw), B.tobytes(), ncol)); ctx.count('stream=make_solver wide right-hand sides'); ctx.count('wide-rhs kind=' + k)
+        ctx.count('wide-rhs columns=%s' % (ncol if ncol <= 10 or ncol in (4095, 4096, 4097, 5000, 8192, 8193) else '~9000'))
+        replay = {'B': B.tolist(), 'kind': k, 'kwargs': kw, 'columns': ncol, 'rhs': 'integers in [-3,3], shape (%d,%d)' % (d, ncol)}
         try:
             Y = np.asarray(operators.make_solver(mk(k, B), **kw).dot(X))
-            bound = 64.0 * d * eps * nn[0] * nn[1] * 3.0 * nn[0]
+            bound = 64.0 * d * eps * nB * nI * 3.0 * nB
             colres = np.abs(B @ Y - X).max(0) if Y.shape == X.shape else np.array([np.inf])
             badc = np.nonzero(~(colres <= bound))[0]
+            what = None
             if len(badc):
+                what = '%d of %d columns are not solved (first bad column %d, residual %g, bound %g)' % (
+                    len(badc), ncol, int(badc[0]), float(np.nan_to_num(colres[badc[0]], nan=np.inf)), bound)
+            else:
+                cols = sorted(set([0, ncol - 1, min(ncol - 1, 4096)] + [int(c) for c in rng.integers(0, ncol, size=3)]))
+                for c in cols:
+                    ref = np.array([float(sum(inv[i][j] * Fraction(float(X[j, c])) for j in range(d))) for i in range(d)])
+                    e = np.abs(Y[:, c] - ref).max()
+                    if not e <= 64.0 * d * eps * nB * nI * max(1.0, float(np.abs(ref).max())):
+                        what = 'column %d of %d differs from the exact rational solution by %g' % (c, ncol, e)
+                        break
+            if what:
                 nres_bad += 1
-                ctx.violation('solver-many-rhs', 'make_solver(%s).dot(X) with %d right-hand sides: %d columns are not solved (first bad column %d, residual %g, bound %g)' % (
-                    {'r': 'csr', 'c': 'csc', 'd': 'dense'}[k], ncol, len(badc), int(badc[0]), float(np.nan_to_num(colres[badc[0]], nan=np.inf)), bound), replay, True)
+                ctx.violation('solver-wide-rhs', 'make_solver(%s%s).dot(X): %s' % ({'r': 'csr', 'c': 'csc', 'd': 'dense'}[k], ''.join(', %s=True' % a for a in kw), what), replay, True)
         except Exception as ex:
             nres_bad += 1
-            ctx.violation('solver-many-rhs', 'make_solver(...).dot(X) with %d right-hand sides raised %s: %s' % (ncol, type(ex).__name__, str(ex)[:120]), replay, True)
+            ctx.violation('solver-wide-rhs', 'make_solver(...).dot(X) with %d right-hand sides raised %s: %s' % (ncol, type(ex).__name__, str(ex)[:120]), replay, True)
     # fastdiag_solver
     from pyiga import bspline, assemble
     import scipy.linalg
